@@ -34,6 +34,7 @@ type query struct {
 	Inner      *query    `json:"inner,omitempty"` // derived / cte: the source query; union: the parenthesised operand
 	Other      *query    `json:"other,omitempty"` // union: the other operand
 	InnerRight bool      `json:"inner_right,omitempty"`
+	SetOp      string    `json:"set_op,omitempty"`      // union: "" = UNION ALL | union | intersect | except (distinct results)
 	OtherPlain bool      `json:"other_plain,omitempty"` // the other operand is written without parentheses (it has no ORDER BY / limit clause)
 	AsWord     bool      `json:"as_word,omitempty"`
 	Cols       []int     `json:"cols,omitempty"` // select list order: 0 = id, j = k<j>
@@ -136,7 +137,44 @@ func (nc *nestCase) sourceRows(q *query, st *evalState) [][]int {
 		var alts [][]int
 		for _, a := range nc.outputs(q.Inner, st) {
 			for _, b := range nc.outputs(q.Other, st) {
-				alts = append(alts, append(append([]int(nil), a...), b...))
+				if q.SetOp == "" {
+					alts = append(alts, append(append([]int(nil), a...), b...))
+					continue
+				}
+				// UNION / INTERSECT / EXCEPT without ALL: the operands select all columns incl. the unique id, so
+				// two result rows are equal exactly when they are copies of the same table row
+				l, r := a, b
+				if q.InnerRight {
+					l, r = b, a
+				}
+				inR := map[int]bool{}
+				for _, x := range r {
+					inR[x] = true
+				}
+				seen := map[int]bool{}
+				var out []int
+				for _, x := range l {
+					keep := true
+					switch q.SetOp {
+					case "intersect":
+						keep = inR[x]
+					case "except":
+						keep = !inR[x]
+					}
+					if keep && !seen[x] {
+						seen[x] = true
+						out = append(out, x)
+					}
+				}
+				if q.SetOp == "union" {
+					for _, x := range r {
+						if !seen[x] {
+							seen[x] = true
+							out = append(out, x)
+						}
+					}
+				}
+				alts = append(alts, out)
 			}
 		}
 		return dedupe(alts)
@@ -213,10 +251,11 @@ func (q *query) sql(nc *nestCase) string {
 		if !q.OtherPlain {
 			ot = "(" + ot + ")"
 		}
+		op := map[string]string{"": " UNION ALL ", "union": " UNION ", "intersect": " INTERSECT ", "except": " EXCEPT "}[q.SetOp]
 		if q.InnerRight {
-			return ot + " UNION ALL " + in + tail
+			return ot + op + in + tail
 		}
-		return in + " UNION ALL " + ot + tail
+		return in + op + ot + tail
 	}
 	var cols []string
 	for _, j := range q.Cols {
@@ -265,6 +304,9 @@ func (q *query) sql(nc *nestCase) string {
 
 func (q *query) shape() string {
 	s := q.From
+	if q.From == "union" && q.SetOp != "" {
+		s = q.SetOp
+	}
 	if q.Distinct {
 		s += "+distinct"
 	}
@@ -367,6 +409,7 @@ func genQuery(t *rapid.T, nc *nestCase, depth int, outermost bool) *query {
 		q.Inner = genQuery(t, nc, depth-1, false)
 		q.Other = genQuery(t, nc, 0, false)
 		q.InnerRight = chance(t, "innerRight", 40)
+		q.SetOp = []string{"except", "intersect", "union", ""}[weighted(t, "setOp", []int{18, 18, 18, 46})]
 		q.OtherPlain = !q.Other.ordered() && !q.Other.hasCut() && chance(t, "otherPlain", 60)
 		perm := make([]int, ncol+1)
 		for i := range perm {
@@ -626,6 +669,9 @@ func checkNest(nc nestCase) (fw.Outcome, *fw.Violation) {
 	}
 
 	addClass("outer_from:" + q.From)
+	if q.From == "union" && q.SetOp != "" {
+		addClass("outer_set_operator:" + q.SetOp)
+	}
 	if q.Distinct {
 		addClass("outer_distinct")
 	}
@@ -651,6 +697,9 @@ func checkNest(nc nestCase) (fw.Outcome, *fw.Violation) {
 			anyDistinct = anyDistinct || x.Distinct
 			anyAnalytic = anyAnalytic || x.An != nil
 			addClass("inner_from:" + x.From)
+			if x.From == "union" && x.SetOp != "" {
+				addClass("inner_set_operator:" + x.SetOp)
+			}
 		}
 		walk(x.Inner, d+1)
 		walk(x.Other, d+1)
@@ -953,7 +1002,7 @@ func TestC07Nested(t *testing.T) {
 	fw.Run(t, fw.Spec[nestCase]{
 		ID: "C07", Name: "nested", Quick: 14000, Thorough: 280000,
 		Gen: genNestCase, Check: checkNest,
-		Rule: "tables as in 'sort'; the outermost query reads from the table, a derived table, a CTE or a UNION ALL whose operands are queries themselves, up to two levels deep; every level may have ORDER BY, LIMIT / PERCENT / WITH TIES / OFFSET (inner levels with a cut always end their key list with the unique id, non-negative values, percentages in steps of 0.25), SELECT levels may permute the select list, use DISTINCT and carry RANK / ROW_NUMBER / COUNT OVER (PARTITION BY / ORDER BY key columns); oracle: inside-out reference - the rows an inner cut keeps are the input of the enclosing level, PERCENT counts the level's own pre-offset rows - then the 'cut' oracle on the outermost level (multiset of row ids, tie-group per position); outermost DISTINCT without id: every output tuple is an input tuple, none twice, every input tuple has a ladder-equal output tuple, output sorted; non-trivial = outermost query ordered over >= 2 rows and (a level below removes >=1 and keeps >=1 row, or a flat query with DISTINCT / analytic function), distinct by (query shape, key kinds/directions/null positions, tiebreak, outer cut kind and boundary class)",
+		Rule: "tables as in 'sort'; the outermost query reads from the table, a derived table, a CTE or a UNION ALL / UNION / INTERSECT / EXCEPT whose operands are queries themselves, up to two levels deep; every level may have ORDER BY, LIMIT / PERCENT / WITH TIES / OFFSET (inner levels with a cut always end their key list with the unique id, non-negative values, percentages in steps of 0.25), SELECT levels may permute the select list, use DISTINCT and carry RANK / ROW_NUMBER / COUNT OVER (PARTITION BY / ORDER BY key columns); oracle: inside-out reference - the rows an inner cut keeps are the input of the enclosing level (set operators without ALL: operands select every column incl. the unique id, so rows are equal exactly when they are the same table row), PERCENT counts the level's own pre-offset rows - then the 'cut' oracle on the outermost level (multiset of row ids, tie-group per position); outermost DISTINCT without id: every output tuple is an input tuple, none twice, every input tuple has a ladder-equal output tuple, output sorted; non-trivial = outermost query ordered over >= 2 rows and (a level below removes >=1 and keeps >=1 row, or a flat query with DISTINCT / analytic function), distinct by (query shape, key kinds/directions/null positions, tiebreak, outer cut kind and boundary class)",
 		Assumptions: []string{assumeDomain, assumeNeg, assumePct,
 			"values of the analytic column are not checked here (C17); which spellings SELECT DISTINCT merges is not asserted (C04)",
 			"a level without ORDER BY never has a limit clause; the order in which a derived table hands its rows to the enclosing query is not relied upon"},
